@@ -81,6 +81,16 @@ class GreedySelector(Selector):
         # Greedy steps
         it = 0
         while (self.max_it < 0 or it < self.max_it) and len(np.unique(selected_indices)) < self.k:
+            # Without early stopping and without a maximum number of iterations, the loop only ends
+            # when k unique predictors are selected, which cannot happen anymore once all the
+            # available predictors are in the ensemble
+            if (
+                not self.early_stopping
+                and self.max_it < 0
+                and len(np.unique(selected_indices)) == n_predictors
+            ):
+                break
+
             losses = []
 
             if self.bagging:
@@ -111,6 +121,11 @@ class GreedySelector(Selector):
                     self._aggregate(y_, indices_weights_),
                 )
                 losses.append(score)
+
+            # No admissible candidate is left (e.g., a single predictor, all predictors already
+            # selected without replacement, or an empty bootstrap sample)
+            if np.all(np.isnan(losses)):
+                break
 
             i_min_ = np.nanargmin(losses)
             loss_min_ = losses[i_min_]
